@@ -366,10 +366,33 @@ def run(ctx):
             raise ctx["MachineryError"](f"emlmodel C20 cannot parse the query for {r['type']}: {r['query']}")
 
     # ---- compile everything in parallel --------------------------------------------------------
-    jobs = [(h["path"], h) for h in hand] + [(r["path"], r) for r in auto]
-    with concurrent.futures.ThreadPoolExecutor(max_workers=min(16, (os.cpu_count() or 4))) as ex:
+    # auto-trait probes that must compile are first tried in batches (one program with up to 40
+    # assertions): a batch that compiles decides all its members at once; the members of a batch
+    # that does not compile are compiled one by one like everything else
+    positives = [r for r in auto if r["want"]]
+    batches = []
+    bdir = os.path.join(work, "batch")
+    os.makedirs(bdir, exist_ok=True)
+    for k in range(0, len(positives), 40):
+        members = positives[k:k + 40]
+        path = os.path.join(bdir, f"batch_{k // 40:03d}.rs")
+        with open(path, "w") as fh:
+            fh.write("// batch of must-compile auto-trait assertions\n" + PRELUDE + "fn main() {\n"
+                     + "".join(f"    assert_{r['trait']}::<{r['type']}>();\n" for r in members) + "}\n")
+        batches.append((path, members))
+    pool = concurrent.futures.ThreadPoolExecutor(max_workers=min(16, (os.cpu_count() or 4)))
+    with pool as ex:
+        bf = {ex.submit(compile_probe, p, rlib, deps, work): members for p, members in batches}
+        jobs = [(h["path"], h) for h in hand] + [(r["path"], r) for r in auto if not r["want"]]
         futs = {ex.submit(compile_probe, p, rlib, deps, work): item for p, item in jobs}
-        for fut in concurrent.futures.as_completed(futs):
+        for fut in concurrent.futures.as_completed(bf):
+            ok, _codes, _first = fut.result()
+            for r in bf[fut]:
+                if ok:
+                    r["obs"] = (True, [], "")
+                else:
+                    futs[ex.submit(compile_probe, r["path"], rlib, deps, work)] = r
+        for fut in concurrent.futures.as_completed(list(futs)):
             futs[fut]["obs"] = fut.result()
 
     def replay_copy(name, path):
